@@ -152,6 +152,7 @@ func (b *builder) shared() *task {
 
 // enqueue fn to be built by the builder.
 func (b *builder) enqueue(fn *Function) {
+	verifTraceEnqueue(b, fn)
 	b.fns = append(b.fns, fn)
 }
 
@@ -161,10 +162,12 @@ func (b *builder) enqueue(fn *Function) {
 // This should include any functions that may be built by other
 // builders.
 func (b *builder) waitForSharedFunction(fn *Function) {
+	verifTraceLock()
 	if fn.buildshared != nil { // maybe need to wait?
 		s := b.shared()
 		s.addEdge(fn.buildshared)
 	}
+	verifTraceHit(b, fn)
 }
 
 // cond emits to fn code to evaluate boolean condition e and jump
@@ -3195,14 +3198,18 @@ func (b *builder) iterate() {
 		b.buildFunction(fn)
 	}
 
+	verifTraceLock()
 	b.buildshared.markDone()
+	verifTraceMarkDone(b)
 	verifYield()
 	b.buildshared.wait()
+	verifTraceReturn(b)
 }
 
 // buildFunction builds IR code for the body of function fn.  Idempotent.
 func (b *builder) buildFunction(fn *Function) {
 	verifYield()
+	verifTraceBuild(b, fn)
 	if fn.build != nil {
 		assert(fn.parent == nil, "anonymous functions should not be built by buildFunction()")
 
@@ -3211,6 +3218,7 @@ func (b *builder) buildFunction(fn *Function) {
 		}
 		fn.build(b, fn)
 		fn.done()
+		verifTraceFnDone(b, fn)
 	}
 }
 
@@ -3486,6 +3494,7 @@ func (p *Package) build() {
 	}
 
 	b := builder{fns: p.created}
+	verifTraceStart(&b, p)
 	b.iterate()
 
 	// We no longer need transient information: ASTs or go/types deductions.
